@@ -11,7 +11,7 @@ META = {
     'technique': 'writer template of ChangeBlock._format extracted by abstract interpretation and cut into lines; marked-language capture '
                  'agreement of the header line with topline, of each key=value item with keyvalue / value_re, of the trailer with endline; '
                  'abstract transition system of parse_changelog (state × line language) used to show that every line class of a well-formed '
-                 'block takes a warning-free branch that stores the line where _format reads it back; storage/emit order rules for every content-dependent layout of the block writer',
+                 'block takes a warning-free branch that stores the line where _format reads it back; storage/emit order rules for every content-dependent layout of the block writer; line-primitive rule (a text is cut into lines at newlines only)',
     'level_text': 'Static decision for all texts of the deb-changelog(5) grammar as stated in the property: every header/trailer the writer '
                   'can emit is matched with groups on the written slots (so parsed attributes equal what was written and re-format is '
                   'identical), change/blank lines are routed warning-free to the change list, header/trailer lines to their branches, EOF '
